@@ -176,6 +176,8 @@ def check_files(case):
         kw = {'open_obj': my_open} if case['open_obj'] else {}
         w = drive.collect(rx.from_(items).pipe(rjson.dump_to_file(f, compression=comp, encoding=enc, **kw)))
         H.require_clean(w, 'dump_to_file', **ctx)
+        if not os.path.exists(f):
+            raise Violation('json.dump_to_file completed without creating the file', **ctx)
         size = os.path.getsize(f)
         r = drive.collect(rjson.load_from_file(f, compression=comp, encoding=enc, **kw))
         H.require_clean(r, 'load_from_file', **ctx)
